@@ -22,7 +22,7 @@ EXPLANATION = (
     "condition variable (Q5), close semantics (Q6), ordering delegated to the item's Ord through BinaryHeap "
     "(Q7), admission dominated by the capacity test (Q8) and encapsulation of the monitor state (Q1). "
     "Decides these structural conditions, which together with the Mutex/Condvar contract imply the property; "
-    "it does not execute the queue.")
+    "it does not execute the queue.  (Q9) Clone::clone builds the new handle field by field from the fields of the same name, so every handle shares one mutex, the same two condition variables and the capacity.  A bulk insert of zero-size items is an inserting operation like the others and must wake every consumer (notify_all or one notify per insert).")
 UNDECIDED = "linearizability as such (follows from Q1-Q8 plus the std Mutex/Condvar/BinaryHeap contracts)"
 
 
